@@ -108,23 +108,24 @@ inductive Note where
   | expunge (rank : Nat)
 deriving Repr
 
-/-- `MoveMessageToMailbox`: `none` = error (destination missing), `some s'` = done (also when source = destination) -/
+/-- `MoveMessageToMailbox`: `none` = error (destination missing, or `ErrAlreadyInMailbox` when source = destination:
+the caller then stores the flags as usual), `some s'` = moved -/
 def Store.move (s : Store) (src : Bytes) (l : Link) (dst : Bytes) (flags : List Bytes) : Option Store :=
   if !s.has dst then none
-  else if src = dst then some s
+  else if src = dst then none
   else
     let s1 := (s.add dst l.msg flags).1
-    some (s1.modify src (fun b => { b with links := b.links.filter (fun x => x.msg ≠ l.msg) }))
+    some (s1.modify src (fun b => { b with links := b.links.filter (fun x => x.uid ≠ l.uid) }))
 
-/-- one message of a STORE; `byUid` selects the UPDATE's WHERE clause (`uid = ?` vs `message_id = ?`) -/
-def Store.storeOne (s : Store) (box : Bytes) (l : Link) (rank : Nat) (new : List Bytes) (mode : Mode) (byUid : Bool) :
+/-- one message of a STORE / UID STORE: the link is addressed by `(mailbox, uid)` -/
+def Store.storeOne (s : Store) (box : Bytes) (l : Link) (rank : Nat) (new : List Bytes) (mode : Mode) :
     Store × List Note :=
   let upd := newFlags l.flags new mode
   let junkAdded := !(junk ∈ l.flags) && (junk ∈ upd)
   let nonJunkAdded := !(nonJunk ∈ l.flags) && (nonJunk ∈ upd)
   let setFlags (s : Store) : Store × List Note :=
     (s.modify box (fun b => { b with links := b.links.map (fun x =>
-        if (if byUid then x.uid = l.uid else x.msg = l.msg) then { x with flags := upd } else x) }),
+        if x.uid = l.uid then { x with flags := upd } else x) }),
      [.fetch rank l.uid upd])
   if junkAdded then
     match s.move box l spamName (upd.filter (· ≠ nonJunk)) with
@@ -143,7 +144,7 @@ def Store.storeSeq (s : Store) (box : Bytes) (new : List Bytes) (mode : Mode) : 
     match (s.find box).bind (fun b => b.links[r - 1]?) with
     | none => s.storeSeq box new mode rs
     | some l =>
-      let (s1, n1) := s.storeOne box l r new mode false
+      let (s1, n1) := s.storeOne box l r new mode
       let (s2, n2) := s1.storeSeq box new mode rs
       (s2, n1 ++ n2)
 
@@ -155,7 +156,7 @@ def Store.storeUid (s : Store) (box : Bytes) (new : List Bytes) (mode : Mode) : 
     match (s.find box).bind (fun b => (b.links.find? (fun l => l.uid = u)).map (fun l => (l, rankOf b.links u))) with
     | none => s.storeUid box new mode us
     | some (l, r) =>
-      let (s1, n1) := s.storeOne box l r new mode true
+      let (s1, n1) := s.storeOne box l r new mode
       let (s2, n2) := s1.storeUid box new mode us
       (s2, n1 ++ n2)
 
